@@ -222,7 +222,9 @@ class SubclassJSONSerializer:
 
         try:
             target_cls = getattr(module, class_name)
-        except AttributeError as exc:
+        except (AttributeError, ImportError) as exc:
+            # a module may produce its attributes on demand (a module-level __getattr__, the lazy modules of six.moves):
+            # a name whose import fails there is as absent as one the module does not have
             raise ClassNotFoundError(class_name, module_name) from exc
         if not isinstance(target_cls, type):
             raise ClassNotFoundError(class_name, module_name)
